@@ -122,3 +122,26 @@ def where(fi, node):
 
 def implies(f, g, constraint=None):
     return G.implies(f, g, constraint)
+
+
+def instance_store(idx, cls, selfkey="self"):
+    """attribute defaults of an instance: the class's __init__ interpreted with symbolic arguments; only concrete
+    values are kept (so a per-instance buffer such as `self._buf = []` is visible to later tables)"""
+    from sa.absint import Interp, Residual
+    import copy
+    try:
+        fi = idx.method(cls, "__init__")
+    except AnalysisError:
+        return {}
+    it = Interp(idx, types={selfkey: cls}, unknown_calls="residual")
+    try:
+        ps = it.run_all(fi, selfkey=selfkey)
+    except AnalysisError:
+        return {}
+    if len(ps) != 1:
+        ps = ps[:1]
+    out = {}
+    for k, v in ps[0].final_store.items():
+        if k.startswith(selfkey + ".") and not isinstance(v, Residual):
+            out[k] = copy.deepcopy(v)
+    return out
